@@ -12,7 +12,7 @@ META = {
                    "sign::encode::public_key are the same structure (32 bytes -> 4 words, last byte at index 7 of a zeroed 8-byte word); the 9-word signature layout matches what recover_secp256k1 pops "
                    "(recovery id, then 8 signature words, then 4 hash words); every SHA-256 user calls new/update(input)/finalize only; bytes_from_word/word_from_bytes are big-endian (C13-O6). "
                    "R4 PredicateExists pre-image order: per slot `len, words..`, then contract, then predicate, all through bytes_from_word. R5 unrecoverable signatures give five zero words.",
-    "not_decided": "agreement of results for every byte length (pop_bytes rounding and truncation are arithmetic), cryptographic correctness (trusted crates).",
+    "not_decided": "(R6 decides how byte operands are taken: ceil(len/8) words, big-endian bytes in order, cut to len; and the VerifyEd25519 operand wiring.) cryptographic correctness (trusted crates).",
     "trusted_base": ["sha2, secp256k1, ed25519-dalek"],
 }
 
@@ -22,8 +22,10 @@ TS = r"^essential_vm::access::Access::this_solution\(access\)"
 
 def run(ctx):
     prog = ctx.prog
-    for r, t in [("R1", "source routing of access ops"), ("R2", "checked range resolution"), ("R3", "sibling encodings agree"), ("R4", "PredicateExists pre-image order"), ("R5", "five zero words on recovery failure")]:
+    for r, t in [("R1", "source routing of access ops"), ("R2", "checked range resolution"), ("R3", "sibling encodings agree"), ("R4", "PredicateExists pre-image order"), ("R5", "five zero words on recovery failure"),
+                 ("R6", "byte operands of Sha256 / VerifyEd25519: ceil(len/8) words are taken, expanded big-endian in stack order and cut to len bytes; VerifyEd25519 operand order and result")]:
         ctx.rule(r, t)
+    r6(ctx, prog)
     d = prog.fn("essential_vm::sync::step_op_access")
     if ctx.anchor("R1", "fn step_op_access", d):
         E.has_call(ctx, "R1", "ThisAddress<-this_solution()", prog, d, r"access::this_address$", [TS + "$", "^stack$"])
@@ -206,3 +208,52 @@ def pop_identity(prog, f, callee_rx):
                 out.append(src)
             return out
     return None
+
+
+def r6(ctx, prog):
+    from .. import access as AC
+    pb = prog.fn("essential_vm::crypto::pop_bytes")
+    if ctx.anchor("R6", "fn pop_bytes", pb):
+        ctx.saw(pb)
+        v = AC.View(prog, pb)
+        bb, t = v.one(r"stack::Stack::pop_words$")
+        n = M.peel(v.pv.of_operand(t["args"][1])) if t else None
+        ok = n is not None and n.kind == "call" and n.a.endswith("usize::div_ceil") or (n is not None and n.kind == "call" and re.search(r"<impl usize>::div_ceil$", n.a) is not None)
+        a0 = AC.norm(M.render(AC.positional(n.sub[0]))) if ok and n.sub else "?"
+        d = M.peel(n.sub[1]) if ok and len(n.sub) > 1 else None
+        width = None
+        if d is not None and d.kind == "call" and d.a == "std::mem::size_of" and d.meta and d.meta.get("gargs"):
+            width = M.norm_ty(d.meta["gargs"][0])
+        elif d is not None and d.kind == "const":
+            width = d.a
+        ctx.ob("R6", "pop_bytes:takes-ceil(len/8)-words", bool(ok) and a0 == "<T as std::convert::TryInto<U>>::try_into(pop($1)?)?" and width in ("i64", 8), pb.loc(bb) if bb is not None else pb.loc(0),
+               "pop_words(stack, div_ceil(%s, size_of::<%s>()), ..): the byte length is the popped word, the word size that of Word" % (a0, width), pb)
+        clos = [c for c in prog.closures_of(pb) if prog.prov(c).of_local(0).has_call(r"Iterator::take$") or "take" in M.render(prog.prov(c).of_local(0))]
+        if ctx.anchor("R6", "pop_bytes conversion closure", clos):
+            c = clos[0]
+            ctx.saw(c)
+            cv = AC.View(prog, c, AC.closure_env(prog, pb, c))
+            r = AC.norm(M.render(AC.positional(cv.pv.of_local(0), cv.env)))
+            want = "Result::Ok{std::iter::Iterator::collect(std::iter::Iterator::take(essential_vm::crypto::bytes_from_words(std::iter::Iterator::copied(slice::iter($2))), <T as std::convert::TryInto<U>>::try_into(pop(^1)?)?))}"
+            ctx.ob("R6", "pop_bytes:bytes-of-the-words-in-stack-order-cut-to-len", r == want, c.loc(0), "closure returns %s" % r[:230], c)
+    bw = prog.fn("essential_vm::crypto::bytes_from_words")
+    if ctx.anchor("R6", "fn bytes_from_words", bw):
+        r = AC.norm(M.render(AC.positional(prog.prov(bw).of_local(0))))
+        ctx.ob("R6", "bytes_from_words:each-word-to-its-8-big-endian-bytes-in-order", r == "std::iter::Iterator::flat_map(std::iter::IntoIterator::into_iter($1), fn:essential_types::convert::bytes_from_word)", bw.loc(0), "returns %s" % r, bw)
+    ve = prog.fn("essential_vm::crypto::verify_ed25519")
+    if ctx.anchor("R6", "fn verify_ed25519", ve):
+        ctx.saw(ve)
+        v = AC.View(prog, ve)
+        order = [(bb, M.callee_of(t).split("::")[-1]) for bb, t in ve.calls() if re.search(r"stack::Stack::pop\w*$|crypto::pop_bytes$", M.callee_of(t))]
+        names = [n for _, n in order]
+        ok = names == ["pop4", "pop8", "pop_bytes"] and all(v.dominates(order[i][0], order[i + 1][0]) for i in range(2))
+        ctx.ob("R6", "VerifyEd25519:pops-key(4),signature(8),data", ok, ve.loc(0), "pops %s; asm.yml stack_in [data.., data_len, signature (8), public_key (4)]" % names, ve)
+        bb, t = v.one(r"signature::verifier::Verifier<.*>>::verify$|Verifier::verify$")
+        args = [AC.norm(M.render(AC.positional(M.peel(v.pv.of_operand(a))))) for a in t["args"]] if t else []
+        want = ["ed25519_dalek::verifying::VerifyingKey::from_bytes(essential_types::convert::u8_32_from_word_4(pop4($1)?))?", "essential_vm::crypto::pop_bytes($1)?",
+                "ed25519::Signature::from_bytes(essential_types::convert::u8_64_from_word_8(pop8($1)?))"]
+        ctx.ob("R6", "VerifyEd25519:verify(key,data,signature)", args == want, ve.loc(bb) if bb is not None else ve.loc(0), "verify(%s)" % [a[:90] for a in args], ve)
+        pbb, pt = v.one(r"stack::Stack::push$")
+        got = AC.norm(M.render(AC.positional(M.peel(v.pv.of_operand(pt["args"][1]))))) if pt else "?"
+        ctx.ob("R6", "VerifyEd25519:pushes-1-iff-verification-succeeds", re.match(r"^(int::from\()?Result::is_ok\(<.*Verifier<.*>>::verify\(.*\)\)\)?$", got) is not None and len(v.calls(r"stack::Stack::(push|extend)$")) == 1, ve.loc(pbb) if pbb is not None else ve.loc(0),
+               "pushes %s" % (got[:60] + ".."), ve)
